@@ -217,6 +217,12 @@ pub fn tx_alphabet(n: &Node, cfg: &AlphaCfg) -> Vec<(String, Transaction, bool)>
             acc.push(("zero-valued-foreign-output".into(), tx_t(TxKind::Normal, vec![c.0], vec![out_t(v, Denom::Mel), out_t(0, Denom::Custom(HashVal([0x77; 32]).into()))], 0, vec![]), false));
             // a faucet-kind transaction that lists a coin as an input without bringing its covenant: inputs are authorised whatever the kind
             acc.push(("faucet-consuming-a-coin-without-its-covenant".into(), mktx(TxKind::Faucet, vec![c.0], vec![out_t(1, Denom::Mel)], 0, vec![], vec![0x66]), false));
+            // the marker a faucet leaves behind is a zero-valued coin at the address nothing hashes to: no transaction can spend it
+            // (a spent marker would let the faucet be applied again); the first two markers the state holds
+            for (mid, _) in m.coins.iter().filter(|(_, d)| d.coin_data.value.0 == 0 && d.coin_data.covhash == Address(HashVal::default())).take(2) {
+                acc.push((format!("spend-faucet-marker({})+coin", short(mid)), tx_t(TxKind::Normal, vec![c.0, *mid], vec![out_t(v, Denom::Mel)], 0, vec![0x6d]), false));
+                acc.push((format!("spend-faucet-marker({})-first", short(mid)), tx_t(TxKind::Normal, vec![*mid, c.0], vec![out_t(v, Denom::Mel)], 0, vec![0x6e]), false));
+            }
             acc.push(("underpaid-zero-outs".into(), tx_t(TxKind::Normal, vec![c.0], vec![], 0, vec![]), false));
             if v > 256 {
                 let outs: Vec<CoinData> = (0..256).map(|i| out_t(if i == 0 { v - 255 } else { 1 }, Denom::Mel)).collect();
